@@ -267,9 +267,15 @@ func tailFriendly(general string) bool {
 }
 
 func buildMeta(a metaArgs, only int) (vdoc, edoc string, env map[string]string, labels []string) {
+	v, e, env, labels := buildMetaTrees(a, only)
+	return emitYAML(v), emitYAML(e), env, labels
+}
+
+// buildMetaTrees: the variable-bearing document, the literal document it stands for, the environment.
+func buildMetaTrees(a metaArgs, only int) (v, e map[string]any, env map[string]string, labels []string) {
 	base := core.DecodeVal(a.Doc).(map[string]any)
-	v := core.DeepCopyVal(base).(map[string]any)
-	e := core.DeepCopyVal(base).(map[string]any)
+	v = core.DeepCopyVal(base).(map[string]any)
+	e = core.DeepCopyVal(base).(map[string]any)
 	env = map[string]string{}
 	for i, rep := range a.Reps {
 		if only >= 0 && i != only {
@@ -277,7 +283,7 @@ func buildMeta(a metaArgs, only int) (vdoc, edoc string, env map[string]string, 
 		}
 		labels = append(labels, applyRep(v, rep, fmt.Sprintf("V%d", i), env, e))
 	}
-	return emitYAML(v), emitYAML(e), env, labels
+	return v, e, env, labels
 }
 
 func sameOutcome(a, b json.RawMessage) bool {
